@@ -19,6 +19,11 @@
 //            12 spread        spreadCoordX/Y + simpleCoordX/Y (floats go to the side channel after " ## ")
 //            13 k             updateCellDemand(k * demand)
 //            14 coarsenFully  15 refineFully
+//            16 k (c w h)*k   size update: cell c%ncells of the case's circuit gets width w and height h
+//                             (Circuit::setCellWidth/Height), then updateCellDemand(circuit).  HR cases use a shadow
+//                             circuit of movable cells of width = demand, height = 1.  A refused update (exception)
+//                             leaves the circuit resized and must leave the density object untouched.
+//                             trace: "O 16 A|R D (cellDemand(i))*ncells S ..."  (A accepted, R refused)
 // trace line: "G ..." grid + hierarchy, then "S ..." state after construction, then per op
 //   "O code NA" (guard of the op false, nothing executed) or "O code [T k (x y)*] [U bins in C++ order] S ...";
 //   a death inside the library ends the trace with "DIED <signal|exception text>".
@@ -107,6 +112,7 @@ static void runCase(const std::string &line) {
   Case cs; cs.v = vh_ints(line.substr(3));
   bool circuitMode = line[1] == 'C';
   std::unique_ptr<DensityLegalizer> leg;
+  std::unique_ptr<Circuit> circp;   // the circuit the size updates (op 16) go through
   std::vector<int> demands;
   int ncells = 0;
   if (!circuitMode) {
@@ -115,10 +121,12 @@ static void runCase(const std::string &line) {
     ncells = cs.nx(); for (int i = 0; i < ncells; ++i) demands.push_back(cs.nx());
     DensityGrid grid(binSize, regs);
     leg.reset(new DensityLegalizer(grid, demands));
+    circp.reset(new Circuit(ncells));
+    circp->setCellWidth(demands); circp->setCellHeight(std::vector<int>(ncells, 1));
   } else {
     int binSize = cs.nx(); int margin = cs.nx(); int nrows = cs.nx(); std::vector<Row> rows;
     for (int i = 0; i < nrows; ++i) { int a = cs.nx(), b = cs.nx(), c = cs.nx(), d = cs.nx(); auto o = (CellOrientation)cs.nx(); rows.emplace_back(a, b, c, d, o); }
-    ncells = cs.nx(); Circuit circ(ncells);
+    ncells = cs.nx(); circp.reset(new Circuit(ncells)); Circuit &circ = *circp;
     std::vector<int> x(ncells), y(ncells), w(ncells), h(ncells); std::vector<CellOrientation> ori(ncells); std::vector<bool> fx(ncells), ob(ncells);
     int H = std::numeric_limits<int>::max();
     for (int i = 0; i < ncells; ++i) {
@@ -212,6 +220,19 @@ static void runCase(const std::string &line) {
         int k = cs.nx(); for (int &dm : demands) dm *= k;
         L.updateCellDemand(demands); break;
       }
+      case 16: {
+        int k = cs.nx(); std::vector<int> cw = circp->cellWidth(), ch = circp->cellHeight();
+        for (int q = 0; q < k; ++q) {
+          long long c = cs.nx(), w = cs.nx(), h = cs.nx();
+          if (ncells > 0) { cw[md(c, ncells)] = (int)w; ch[md(c, ncells)] = (int)h; }
+        }
+        circp->setCellWidth(cw); circp->setCellHeight(ch);
+        bool accepted = true;
+        try { L.updateCellDemand(*circp); } catch (const std::runtime_error &) { accepted = false; }
+        K(accepted ? "A" : "R"); K("D");
+        for (int c = 0; c < ncells; ++c) { demands[c] = L.cellDemand(c); P(demands[c]); }
+        break;
+      }
       case 14: L.coarsenFully(); break;
       case 15: L.refineFully(); break;
       default: done = false;
@@ -252,8 +273,15 @@ static std::string genSplit(SplitMix &r) {
 }
 
 // ------------------------------------------------------------------ generator
-static void genTail(SplitMix &r, std::string &s, int ncells, int minX, int maxX, int minY, int maxY, int unit, bool degenerate, bool heavy) {
+// cells0: (fixed, width, height) of every cell of the case's circuit (HR: (0, demand, 1)), for the size updates (op 16)
+typedef std::vector<std::array<long long, 3> > Cells0;
+static void genTail(SplitMix &r, std::string &s, int ncells, int minX, int maxX, int minY, int maxY, int unit, bool degenerate, bool heavy,
+                    const Cells0 &cells0) {
   auto put = [&](long long v) { s += " " + std::to_string(v); };
+  Cells0 cur = cells0;   // sizes in the circuit as the history goes (a refused update still resizes the circuit)
+  auto zero0 = [&](int c) { return cells0[c][0] != 0 || cells0[c][1] * cells0[c][2] == 0; };   // status inside the density object
+  auto zeroNow = [&](int c) { return cur[c][0] != 0 || cur[c][1] * cur[c][2] == 0; };
+  int updRate = r.coin(35) ? (int)r.uni(10, 30) : 6;   // some histories are mostly size updates between passes
   std::vector<std::pair<long long, long long> > tg;
   int w = std::max(1, maxX - minX), h = std::max(1, maxY - minY);
   for (int i = 0; i < ncells; ++i) {
@@ -288,7 +316,29 @@ static void genTail(SplitMix &r, std::string &s, int ncells, int minX, int maxX,
     else if (k < 94) code = 12; else if (k < 96) code = 13; else if (k < 98) code = 14; else code = 15;
     // a placement area without extent is outside the domain of the legalization passes (1e8/width)
     if (degenerate && (code == 4 || code == 5 || code == 6 || code == 9 || code == 10)) code = r.coin(50) ? 11 : 12;
+    if (r.coin(updRate)) code = 16;
     put(code);
+    if (code == 16) {
+      // size updates: merely different / to zero area / from zero area / arbitrary, then (often) a repair of every cell
+      // whose zero status differs from the one the density object was built with, so that the update is accepted
+      std::vector<std::array<long long, 3> > ch;
+      int k = ncells == 0 ? (int)r.uni(0, 1) : (int)r.uni(0, 3);
+      for (int q = 0; q < k; ++q) {
+        long long c = r.uni(0, std::max(1, ncells) - 1), w, h; int kind = r.uni(0, 99);
+        long long w0 = ncells ? cur[c][1] : 1, h0 = ncells ? cur[c][2] : 1;
+        if (kind < 45) { w = r.uni(1, std::min(2 * std::max(1LL, w0) + 1, 4 * std::max(1LL, ncells ? cells0[c][1] : 1) + 8)); h = r.coin(70) ? std::max(1LL, h0) : std::max(1LL, h0) * r.uni(1, 2); }
+        else if (kind < 70) { if (r.coin(50)) { w = 0; h = r.coin(50) ? h0 : r.uni(0, 3); } else { w = r.coin(50) ? w0 : r.uni(0, 5); h = 0; } }
+        else if (kind < 85) { w = r.uni(1, 6); h = r.uni(1, 2) * unit; }
+        else { w = r.uni(0, 6); h = r.uni(0, 3); }
+        if (ncells) { cur[c][1] = w; cur[c][2] = h; }
+        ch.push_back({c + (r.coin(10) ? ncells : 0), w, h});
+      }
+      if (r.coin(60)) for (int c = 0; c < ncells; ++c) if (zeroNow(c) != zero0(c)) {
+        long long w = zero0(c) ? 0 : std::max(1LL, cells0[c][1] + r.uni(0, 2)), h = zero0(c) ? cur[c][2] : std::max(1LL, cells0[c][2]);
+        cur[c][1] = w; cur[c][2] = h; ch.push_back({c, w, h});
+      }
+      put(ch.size()); for (auto &t : ch) { put(t[0]); put(t[1]); put(t[2]); }
+    }
     if (code == 7) for (int q = 0; q < 4; ++q) put(r.uni(0, 40));
     if (code == 8) { int kb = r.coin(20) ? r.uni(0, 2) : r.uni(3, 9); put(kb); for (int q = 0; q < 2 * kb; ++q) put(r.uni(0, 40)); }
     if (code == 11) for (int q = 0; q < 5; ++q) put(r.uni(0, 40));
@@ -336,12 +386,12 @@ static std::string genCase(SplitMix &r, bool heavy) {
   int ncells = r.coin(5) ? (int)r.uni(0, 1) : (int)r.uni(2, heavy ? 48 : 22);
   long long util = r.uni(5, 130);
   long long avg = std::max(1LL, cap * util / 100 / std::max(1, ncells));
-  bool degenerate;
+  bool degenerate; Cells0 cells0;
   if (!circuit) {
     s = "HR"; put(binSize); put(segs.size());
     for (auto &g : segs) { put(g.a); put(g.b); put(g.c); put(g.d); }
     put(ncells);
-    for (int i = 0; i < ncells; ++i) put(r.coin(15) ? 0 : r.uni(1, 2 * avg));
+    for (int i = 0; i < ncells; ++i) { long long dm = r.coin(15) ? 0 : r.uni(1, 2 * avg); put(dm); cells0.push_back({0, dm, 1}); }
     degenerate = maxX - minX <= 0 || maxY - minY <= 0;
   } else {
     // whole rows + fixed obstructions; the free segments come from Circuit::computeRows (C15)
@@ -362,20 +412,23 @@ static std::string genCase(SplitMix &r, bool heavy) {
     put(nfixed + nmov);
     avg = std::max(1LL, (long long)rw * (top - oy) * util / 100 / nmov);
     for (int i = 0; i < nfixed; ++i) {   // obstructions (some flagged non-obstruction, some outside)
-      put(ox + r.uni(-5, rw)); put(oy + r.uni(-H, top - oy)); put(r.uni(0, std::max(1, rw / 3))); put(H * r.uni(0, 3)); put(r.uni(0, 7)); put(1); put(r.coin(80));
+      long long fw = r.uni(0, std::max(1, rw / 3)), fh = H * r.uni(0, 3);
+      put(ox + r.uni(-5, rw)); put(oy + r.uni(-H, top - oy)); put(fw); put(fh); put(r.uni(0, 7)); put(1); put(r.coin(80));
+      cells0.push_back({1, fw, fh});
     }
     bool haveH = false;
     for (int i = 0; i < nmov; ++i) {     // movable cells; at least one of height exactly H
       int hh = (!haveH && i == nmov - 1) ? H : (r.coin(70) ? H : H * (int)r.uni(1, 3)); if (hh == H) haveH = true;
       long long ww = r.coin(12) ? 0 : std::max(1LL, (long long)r.uni(1, 2 * avg) / hh);
       put(ox + r.uni(0, rw)); put(oy + r.uni(0, top - oy)); put(ww); put(hh); put(0); put(0); put(r.coin(50));
+      cells0.push_back({0, ww, hh});
     }
     ncells = nfixed + nmov;
     minX = ox; maxX = ox + rw; minY = oy; maxY = top;
     degenerate = false;  // decided at run time by the harness guards for 9/10; run()/improve() need a non-empty grid:
     // the generator cannot know whether every row is clipped away; such cases are recognised by the checker (area 0)
   }
-  genTail(r, s, ncells, minX, maxX, minY, maxY, H, degenerate, heavy);
+  genTail(r, s, ncells, minX, maxX, minY, maxY, H, degenerate, heavy, cells0);
   return s;
 }
 
